@@ -63,6 +63,10 @@ func hdrTerm(n *yaml.Node) string {
 		coqStr(n.Anchor), coqStr(n.Tag), uint32(n.Style))
 }
 
+func plainHdr20(n *yaml.Node, tag string) bool {
+	return n.HeadComment == "" && n.LineComment == "" && n.FootComment == "" && n.Anchor == "" && n.Tag == tag && n.Style == 0
+}
+
 // cnodeTerm prints a yaml.Node as a KV.Yaml.Fmt.cnode term (documents unwrapped).
 func cnodeTerm(n *yaml.Node) (string, bool) {
 	if n == nil {
@@ -77,6 +81,9 @@ func cnodeTerm(n *yaml.Node) (string, bool) {
 	case yaml.ScalarNode:
 		if len(n.Content) != 0 {
 			return "", false
+		}
+		if plainHdr20(n, "!!str") {
+			return "(s0 " + coqStr(n.Value) + ")", true
 		}
 		return fmt.Sprintf("(CScalar %s %s)", hdrTerm(n), coqStr(n.Value)), true
 	case yaml.AliasNode:
@@ -100,6 +107,9 @@ func cnodeTerm(n *yaml.Node) (string, bool) {
 			}
 			parts = append(parts, "("+k+", "+v+")")
 		}
+		if plainHdr20(n, "!!map") {
+			return "(m0 [" + strings.Join(parts, "; ") + "])", true
+		}
 		return fmt.Sprintf("(CMap %s [%s])", hdrTerm(n), strings.Join(parts, "; ")), true
 	case yaml.SequenceNode:
 		if n.Value != "" {
@@ -112,6 +122,9 @@ func cnodeTerm(n *yaml.Node) (string, bool) {
 				return "", false
 			}
 			parts = append(parts, v)
+		}
+		if plainHdr20(n, "!!seq") {
+			return "(q0 [" + strings.Join(parts, "; ") + "])", true
 		}
 		return fmt.Sprintf("(CSeq %s [%s])", hdrTerm(n), strings.Join(parts, "; ")), true
 	}
@@ -1232,7 +1245,7 @@ func bucket20(n int) string {
 }
 
 func runC20(r *Run, rng *Rng, tier string) error {
-	nModel, nLaw := 500, 1500
+	nModel, nLaw := 360, 1600
 	if tier == "thorough" {
 		nModel, nLaw = 6000, 40000
 	}
